@@ -20,9 +20,9 @@ SPEC = os.path.join(VERIF, "spec", "Isolation")
 SIMS = [("contact", "RKM"), ("loop", "CPodes"), ("pend", "Verlet"), ("loop", "RKF"), ("contact", "SEE2"), ("pend", "RK3")]
 
 
-def schedules(ninst, nseg, name):
+def schedules(ninst, nseg, name, reps=1):
     with open(os.path.join(SPEC, ".gen.cfg"), "w") as f:
-        f.write("SPECIFICATION Spec\nCONSTANTS\n  NInst = %d\n  NSeg = %d\nINVARIANT Emit\nCHECK_DEADLOCK FALSE\n" % (ninst, nseg))
+        f.write("SPECIFICATION Spec\nCONSTANTS\n  NInst = %d\n  NSeg = %d\n  Reps = %d\nINVARIANT Emit\nCHECK_DEADLOCK FALSE\n" % (ninst, nseg, reps))
     r = vlib.run_tlc(SPEC, "Isolation.tla", ".gen.cfg", name, workers=1, timeout=1500, xmx="8g")
     sc = [json.loads(s) for s in vlib.tla_strings(r.out, "SCHED ")]
     if r.error or not sc:
@@ -60,6 +60,14 @@ def main():
             inst[2 if tier == "quick" else rnd.randrange(3)] = dict(inst[2])   # keep
             configs.append((inst, 2, s32))
             configs.append((inst, 3, rnd.sample(s33, 60) if tier == "quick" else s33))
+        # repeats on the SAME objects (TimeStepper + Integrator, or TimeStepper with a new Integrator), interleaved:
+        # 2 instances x 2 segments x 2 repetitions
+        s222, r = schedules(2, 2, pid + "-g3", reps=2)
+        cov["states"] += r.distinct; cov["transitions"] += r.states
+        cov["schedules_enumerated"]["2x2x2 (repeat on the same objects)"] = len(s222)
+        for a, b in ((0, 1), (2, 3), (4, 5)) if tier == "quick" else ((0, 1), (2, 3), (4, 5), (1, 4), (0, 5), (3, 2)):
+            inst = [{"type": "sim", "model": SIMS[a][0], "integ": SIMS[a][1], "reuse": "all"}, {"type": "sim", "model": SIMS[b][0], "integ": SIMS[b][1], "reuse": "ts"}]
+            configs.append((inst, 2, s222))
         # a simulation interleaved with random generators and a second copy of the SAME simulation
         inst = [{"type": "sim", "model": "contact", "integ": "RKM"}, {"type": "rng", "dist": "gaussian", "seed": 11},
                 {"type": "sim", "model": "contact", "integ": "RKM"}]
@@ -72,11 +80,14 @@ def main():
             inst = [{"type": "rng", "dist": "uniform", "seed": seeds[0]}, {"type": "rng", "dist": "gaussian", "seed": seeds[1]},
                     {"type": "rng", "dist": "uniform", "seed": seeds[2]}]
             configs.append((inst, 3, s32 if tier != "quick" else rnd.sample(s32, 300)))
+        s222, r = schedules(2, 2, pid + "-g3", reps=2)      # reseeding restarts the stream
+        cov["states"] += r.distinct; cov["transitions"] += r.states
+        configs.append(([{"type": "rng", "dist": "uniform", "seed": 5}, {"type": "rng", "dist": "gaussian", "seed": 5}], 2, s222))
     runs = []
     for inst, nseg, scheds in configs:
         runs.append({"mode": "solo", "nseg": nseg, "instances": inst})
         for s in scheds:
-            runs.append({"mode": "sched", "sched": s, "instances": inst})
+            runs.append({"mode": "sched", "nseg": nseg, "sched": s, "instances": inst})
     ranges = []
     if pid == "C31":
         # ranges: negative, width one, tiny, large, straddling zero
